@@ -184,6 +184,21 @@ def generate(tier, rng):
         for sp in [TUP, DIMG]:
             for B in [1, 2]:
                 cases.append({"kind": "ma_stack", "algo": "MADDPG", "names": names, "space": sp, "B": B})
+    # ---- round 5: agents built with normalize_images on / off on Tuple and Dict spaces that contain an image
+    V3 = {"t": "box", "shape": [3], "dtype": "float32", "low": -1, "high": 1}
+    TIMG = {"t": "tuple", "members": [V3, IMG]}
+    DIMG1 = {"t": "dict", "fields": [[0, IMG], [1, V3]]}
+    for algo in ["DQN", "PPO", "DDPG"]:
+        for sp in (TIMG, DIMG1):
+            for nz in (True, False):
+                for lead in [[], [2]]:
+                    for variant in ((None, "clone") if nz is False else (None,)):
+                        c = {"kind": "prep", "algo": algo, "space": sp, "lead": lead, "input": "numpy", "normalize": nz, "pat": 3}
+                        if sp["t"] == "dict":
+                            c["order"] = [0, 1]
+                        if variant:
+                            c["variant"] = variant
+                        cases.append(c)
     # single-agent: batch vs one at a time, every permutation of a 3-element batch
     perms = list(itertools.permutations(range(3)))
     for algo in ["DQN", "PPO", "DDPG", "TD3", "CQN"]:
